@@ -921,10 +921,20 @@ impl<'a> JoinOutput<'a> {
 
         let internal_value_name = construct_internal_value_name();
 
+        //
+        // Tasks spawned by the async spawn variants must be `'static`: there the wrapper closure has to own
+        // what it captures (e.g. hoisted `{...}` operands of the nested chain) instead of borrowing it.
+        //
+        let move_captures = if self.config.is_async && self.config.is_spawn {
+            Some(quote! { move })
+        } else {
+            None
+        };
+
         let replaced_expr = action_expr_wrapper
             .expr
             .clone()
-            .replace_inner_exprs(&[parse_quote! { |#internal_value_name| #prev_step_stream }])
+            .replace_inner_exprs(&[parse_quote! { #move_captures |#internal_value_name| #prev_step_stream }])
             .expect("join: Failed to replace expr in unwrap expr. This's a bug, please report it.");
 
         let replaced_action_expr_position = ActionExprPos {
